@@ -13,7 +13,9 @@
 (*          - Query: the product of closest-peer queries on the final state *)
 (*            (C23).                                                        *)
 (*  vectors (KadGenVec.cfg) every bin-occupancy vector over a class menu,   *)
-(*          each built in three orders (C22, exhaustive).                   *)
+(*          each built in three orders (C22, exhaustive) with radius 0, 1   *)
+(*          or MaxPO, followed by a SetRadius sweep over every radius from  *)
+(*          the number of bins down to 0 and up again.                      *)
 (*  edges   (KadGenEdges.cfg, VIEW) one shortest history per (state,        *)
 (*          operation) edge of the state graph modulo peer symmetry (C24).  *)
 EXTENDS Kad, TLC, Json, IOUtils
@@ -176,14 +178,19 @@ VBins    == 0..(atoi(Env("VERIF_VBINS", "3")) - 1)
 VClasses == IF Env("VERIF_VCLASSES", "quick") = "quick"
             THEN {<<0,0>>, <<GQ,GQ>>, <<3,3>>, <<GQ+1,GQ>>, <<2,0>>}
             ELSE {<<0,0>>, <<1,1>>, <<1,0>>, <<3,3>>, <<GQ,GQ>>, <<GQ+1,GQ+1>>, <<GQ+1,GQ>>, <<GQ,GQ-1>>, <<GQ,0>>}
-VRadii   == {1, MaxPO}
+\* radius the three constructions are made with (0: below every positive saturation-derived depth)
+VRadii   == {0, 1, MaxPO}
+\* ... and, on the last construction, SetRadius through every radius from the number of bins down to 0
+\* and up again: radii strictly below, at and above whatever depth the saturation of the bins gives
+VB       == Cardinality(VBins)
+RadiusSweep == [i \in 1..(VB + 1) |-> ORadius(VB + 1 - i)] \o [i \in 1..VB |-> ORadius(i)] \o <<ORadius(MaxPO)>>
 VConn(v) == UNION {{<<b, i>> : i \in 0..(v[b][1] - 1)} : b \in DOMAIN v}
 VPub(v)  == UNION {{<<b, i>> : i \in 0..(v[b][2] - 1)} : b \in DOMAIN v}
 VInit == /\ Init /\ hist = <<>> /\ ever = {}
          /\ vec \in [v : [VBins -> VClasses], rad : VRadii]
 VSpec == VInit /\ [][FALSE]_<<vars, hist, vec, ever>>
 EmitVec == LET c == VConn(vec.v)  p == VPub(vec.v)
-           IN Scn(ThreeOrders(c, p, vec.rad))
+           IN Scn(ThreeOrders(c, p, vec.rad) \o RadiusSweep)
 
 (***************************************************************************)
 (* Disconnections below the depth (C22, exhaustive over a class menu): a   *)
